@@ -31,9 +31,12 @@ typedef VH_MT MT;
 #include <libcuckoo-c/cuckoo_table_template.h>
 }
 #include <libcuckoo-c/cuckoo_table_template.cc>
+#include <atomic>
+#include <thread>
 
 // ---- global allocation fault injection + balance ----
-static long g_new_count = 0, g_fail_at = 0, g_live = 0;
+static long g_new_count = 0, g_fail_at = 0;
+static std::atomic<long> g_live{0};   // atomic: the race probes allocate from two threads
 static bool g_counting = false;
 void *operator new(size_t n) {
   if (g_counting) {
@@ -219,11 +222,11 @@ int main() {
           for (long L = 0; L < len && out == "ok"; ++L) {
             FILE *pf = fopen(ppath.c_str(), "wb"); if (L) fwrite(all.data(), 1, L, pf); fclose(pf);
             pf = fopen(ppath.c_str(), "rb");
-            long live0 = g_live; vt *n = (vt *)1;
+            long live0 = g_live.load(); vt *n = (vt *)1;
             if (!guard(out, [&] { n = vt_read(pf); })) { fclose(pf); break; }
             fclose(pf);
             if (n != nullptr) { out = "DIFF read of a file truncated to " + std::to_string(L) + " of " + std::to_string(len) + " bytes did not return NULL"; vt_free(n); break; }
-            if (g_live != live0) { out = "DIFF read of a truncated file (" + std::to_string(L) + " bytes) leaked " + std::to_string(g_live - live0) + " allocation(s)"; break; }
+            if (g_live.load() != live0) { out = "DIFF read of a truncated file (" + std::to_string(L) + " bytes) leaked " + std::to_string(g_live.load() - live0) + " allocation(s)"; break; }
             ++tested;
           }
           unlink(ppath.c_str());
@@ -268,6 +271,40 @@ int main() {
         else if (op == "rehash") r->rehash((size_t)a); else if (op == "reserve") r->reserve((size_t)a);
         else if (op == "ltinsert") rlt->insert(ka, vb); else if (op == "ltrehash") rlt->rehash((size_t)a); else if (op == "ltreserve") rlt->reserve((size_t)a);
         out = "swept n=" + std::to_string(n);
+      }
+    } else if (w == "race") {
+      // Each C entry point must be ONE operation of the table it wraps, also when two threads call it at once: `a` rounds
+      // of two threads released together on (i) upsert of the same absent key (exactly one inserts, the other applies
+      // the functor: the value ends at b+1), (ii) insert of the same absent key (exactly one succeeds), (iii) update_fn on a
+      // present key (both increments applied).  Free-running threads on a table of its own (the lock-stepped pair keeps
+      // its layout); a probe, not an exploration.
+      vt *tc = nullptr;
+      guard(out, [&] { tc = vt_init(4); });
+      if (!tc) { if (out == "ok") out = "DIFF init returned NULL"; }
+      else {
+        long bad = 0; std::string first;
+        for (long i = 0; i < a && bad == 0; ++i) {
+          KT k1 = (KT)(2 * i), k2 = (KT)(2 * i + 1); MT v0 = (MT)b;
+          std::atomic<int> go{0};
+          bool r1[2] = {false, false}, r2[2] = {false, false}, r3[2] = {false, false};
+          auto worker = [&](int me) {
+            ++go; while (go.load() < 2) {}
+            MT v = v0; KT ka1 = k1, ka2 = k2;
+            r1[me] = vt_upsert(tc, &ka1, fn_add1, &v);
+            r2[me] = vt_insert(tc, &ka2, &v);
+            r3[me] = vt_update_fn(tc, &ka2, fn_add1);
+          };
+          std::thread t0(worker, 0), t1(worker, 1);
+          t0.join(); t1.join();
+          MT got1 = 0, got2 = 0; KT ka1 = k1, ka2 = k2;
+          bool f1 = vt_find(tc, &ka1, &got1), f2 = vt_find(tc, &ka2, &got2);
+          if (!(r1[0] != r1[1]) || !f1 || got1 != (MT)(v0 + 1)) { ++bad; first = "two concurrent upserts of one absent key: returns " + std::to_string(r1[0]) + "," + std::to_string(r1[1]) + " value " + std::to_string((long)got1) + " (one must insert " + std::to_string((long)v0) + ", the other add 1)"; }
+          else if (!(r2[0] != r2[1])) { ++bad; first = "two concurrent inserts of one absent key: returns " + std::to_string(r2[0]) + "," + std::to_string(r2[1]); }
+          else if (!r3[0] || !r3[1] || !f2 || got2 != (MT)(v0 + 2)) { ++bad; first = "two concurrent update_fn on one key: value " + std::to_string((long)got2) + " instead of " + std::to_string((long)(v0 + 2)); }
+        }
+        if (vt_size(tc) != (size_t)(2 * a) && !bad) { ++bad; first = "size() " + std::to_string(vt_size(tc)) + " after " + std::to_string(2 * a) + " distinct keys"; }
+        vt_free(tc);
+        if (bad) out = "DIFF race: " + first;
       }
     } else if (w == "free") {
       if (clt) { vt_locked_table_free(clt); clt = nullptr; } rlt.reset();
